@@ -110,6 +110,23 @@ impl PreprocessedText {
     }
 }
 
+// Verification hook (feature `verif`): every text handed to pp_parser on this thread, in call order.
+#[cfg(feature = "verif")]
+thread_local!(
+    static VERIF_PARSE_LOG: std::cell::RefCell<Vec<String>> = std::cell::RefCell::new(Vec::new())
+);
+
+#[cfg(feature = "verif")]
+fn verif_log_parse(s: &str) {
+    VERIF_PARSE_LOG.with(|x| x.borrow_mut().push(String::from(s)));
+}
+
+/// Take (and clear) the log of texts parsed by preprocess_str on this thread.
+#[cfg(feature = "verif")]
+pub fn verif_take_parse_log() -> Vec<String> {
+    VERIF_PARSE_LOG.with(|x| std::mem::take(&mut *x.borrow_mut()))
+}
+
 #[derive(Clone, Debug, Eq, PartialEq)]
 pub struct Define {
     pub identifier: String,
@@ -283,6 +300,9 @@ pub fn preprocess_str<T: AsRef<Path>, U: AsRef<Path>, V: BuildHasher>(
     for (k, v) in pre_defines {
         defines.insert(k.clone(), (*v).clone());
     }
+
+    #[cfg(feature = "verif")]
+    verif_log_parse(s);
 
     let span = Span::new_extra(&s, SpanInfo::default());
     let (_, pp_text) = all_consuming(pp_parser)(span).map_err(|x| match x {
